@@ -112,6 +112,29 @@ def linear_task(states):
         f, _ = c11.check_state(torch, st, 3)
         out["n"] += 1
         out["fails"] += [dict(x, kind="linear") for x in f if x["clause"] in ("roundtrip", "pass_logabsdet", "nonfinite")]
+        # the same round trips through the weight cache, inverse first and forward first
+        p = st["par"]
+        cls, n = str(p["cls"]), int(p["n"])
+        if cls in ("LU", "QR", "SVD", "Naive"):
+            W = torch.tensor(c11.mat(st["W"]), dtype=torch.float64)
+            for first in ("inverse", "forward"):
+                m = c11.build(torch, p)
+                if cls == "Naive":
+                    with torch.no_grad():
+                        m._weight.copy_(W)
+                m.eval()
+                m.use_cache(True)
+                y0 = torch.randn(4, n, dtype=torch.float64, generator=torch.Generator().manual_seed(n + 1))
+                with torch.no_grad():
+                    if first == "inverse":
+                        x1, l1 = m.inverse(y0)
+                        y1, l2 = m.forward(x1)
+                    else:
+                        x1, l1 = m.forward(y0)
+                        y1, l2 = m.inverse(x1)
+                err = float((y1 - y0).abs().max())
+                if not err <= 1e-7 * (1 + float(W.abs().max()) * float(torch.linalg.inv(W).abs().max())) or float((l1 + l2).abs().max()) > 1e-8:
+                    out["fails"].append({"kind": "linear", "cls": cls, "n": n, "par": {k: str(v) for k, v in p.items()}, "clause": "roundtrip", "detail": "%s (features %d) with the cache on, %s first: round trip error %.3g, logabsdet sum %.3g" % (cls, n, first, err, float((l1 + l2).abs().max()))})
     return out
 
 
